@@ -204,6 +204,93 @@ def canon_rules(prog, chk, pid):
         chk.require(ok, P("canonical-s"), fi.qualname, "s > order/2 -> s = order - s", "%s:%d" % (fi.file, fi.lineno), "canonical encoders replace a high s by order - s", "canonisation arm deviates")
 
 
+def digest_rules(prog, chk, pid):
+    """FIPS 186-4 6.4 / RFC 6979 2.3.2 bits2int: the hash integer is the leftmost min(hashlen, qlen) bits of the digest"""
+    P = lambda s: "%s.%s" % (pid, s)
+    q = "keys._truncate_and_convert_digest"
+    fi = prog.func(E + q)
+    where = "%s:%d" % (fi.file, fi.lineno)
+    pd, pc = fi.params[0], fi.params[1]
+
+    def is_param(t, nm):
+        t = unsnap(t)
+        return t.op == "param" and t.args[0] == nm
+
+    def call_named(t, nm):
+        t = unsnap(t)
+        if t.op == "call" and isinstance(t.args[0], Term) and t.args[0].op == "func" and t.args[0].args[0].rsplit(".", 1)[-1] == nm:
+            return [unsnap(x) for x in t.args[1]]
+        return None
+
+    # ---- truncating arm
+    ex = Exec(prog, policy=lambda e, f, d: False)
+    res = ex.run(fi, args={fi.params[2]: C(True)})
+    ok, why = res.ret is not None and not res.dead, "no result with allow_truncate=True"
+    if ok:
+        v = unsnap(res.ret)
+        ok = v.op == "bin" and v.args[0] == "RShift"
+        why = "result is not <number> >> <shift> (%s)" % show(v, 5)[:80]
+    if ok:
+        num, sh = unsnap(v.args[1]), unsnap(v.args[2])
+        a = call_named(num, "string_to_number")
+        ok = a is not None and len(a) == 1 and a[0].op == "slice" and is_param(a[0].args[0], pd) and unsnap(a[0].args[1]) is NONE and "baselen" in show(a[0].args[2], 3) and is_param(unsnap(a[0].args[2]).args[0] if unsnap(a[0].args[2]).op == "attr" else NONE, pc)
+        why = "number is not string_to_number(digest[:curve.baselen])"
+        dig = a[0] if ok else None
+    if ok:
+        bc = builtin_call(sh)
+        ok = bc is not None and bc[0] == "max" and len(bc[1]) == 2
+        why = "shift is not max(0, hashbits - qbits)"
+        if ok:
+            zs = [x for x in bc[1] if is_const(x) and cval(x) == 0]
+            ds = [unsnap(x) for x in bc[1] if not (is_const(x) and cval(x) == 0)]
+            ok = len(zs) == 1 and len(ds) == 1 and ds[0].op == "bin" and ds[0].args[0] == "Sub"
+        if ok:
+            hb, qb = unsnap(ds[0].args[1]), unsnap(ds[0].args[2])
+            # hash bits = 8 * len(<the truncated digest>): leading zero BITS of the digest count
+            okh = hb.op == "bin" and hb.args[0] == "Mult" and any(is_const(x) and cval(x) == 8 for x in (hb.args[1], hb.args[2]))
+            if okh:
+                ln = [unsnap(x) for x in (hb.args[1], hb.args[2]) if not is_const(x)]
+                okh = len(ln) == 1 and ln[0].op == "len" and unsnap(ln[0].args[0]) is dig
+            a2 = call_named(qb, "bit_length")
+            okq = a2 is not None and len(a2) == 1 and a2[0].op == "attr" and a2[0].args[1] == "order" and is_param(a2[0].args[0], pc)
+            ok = okh and okq
+            why = "shift is not 8*len(truncated digest) - bit_length(curve.order): %s" % show(ds[0], 6)[:120]
+    chk.require(ok, P("digest-leftmost-bits"), fi.qualname, "string_to_number(digest[:baselen]) >> max(0, 8*len(digest[:baselen]) - bit_length(order))", where,
+                "the hash integer is the leftmost qlen bits of the digest; the digest's bit length is its byte length times 8, so leading zero bits are kept", why)
+    # ---- non-truncating arm: too long digests are refused, the whole digest is converted
+    ex = Exec(prog, policy=lambda e, f, d: False)
+    res = ex.run(fi, args={fi.params[2]: C(False)})
+    ok = res.ret is not None and not res.dead
+    why = "no result with allow_truncate=False"
+    if ok:
+        a = call_named(res.ret, "string_to_number")
+        ok = a is not None and len(a) == 1 and is_param(a[0], pd)
+        why = "result is not string_to_number(digest)"
+    if ok:
+        rets = [e for e in res.events if e.kind == "return" and e.stack == (fi.qualname,)]
+        gs = [g for g in res.events if g.kind == "guard" and g.d.get("term") == "raise" and "BadDigestError" in str(g.d.get("exc"))]
+        okg = False
+        for g in gs:
+            r = raise_rel(g)
+            if r[0] == "rel" and r[1] in ("Lt", "Gt"):
+                big, small = (unsnap(r[3]), unsnap(r[2])) if r[1] == "Lt" else (unsnap(r[2]), unsnap(r[3]))
+                if big.op == "len" and is_param(big.args[0], pd) and small.op == "attr" and small.args[1] == "baselen" and all(dominates(g, x) for x in rets):
+                    okg = True
+        ok, why = okg, "no dominating guard `len(digest) > curve.baselen -> BadDigestError`"
+    chk.require(ok, P("digest-no-truncate"), fi.qualname, "len(digest) > baselen -> BadDigestError; string_to_number(digest)", where, "without truncation an over-long digest is refused and the whole digest is used", why)
+    # ---- both signing and verification go through this one helper
+    users = []
+    for f in prog.funcs.values():
+        if f.module.name == E + "keys" and not f.module.is_test and f.qualname != fi.qualname:
+            import ast as _ast
+
+            for n in _ast.walk(f.node):
+                if isinstance(n, _ast.Call) and isinstance(n.func, _ast.Name) and n.func.id == "_truncate_and_convert_digest":
+                    users.append(f.qualname.rsplit(".", 2)[-2] + "." + f.name)
+    want = {"VerifyingKey.verify_digest", "SigningKey.sign_digest"}  # sign_digest_deterministic signs through sign_digest
+    chk.require(want <= set(users), P("digest-single-helper"), fi.qualname, "used by %s" % sorted(set(users)), where, "signing and verification derive the hash integer through the same helper", "helper is not used by %s" % sorted(want - set(users)))
+
+
 def run(prog, chk, tier):
     chk.explanation = ("Only the structural part of the statement is decided: the range guards on r and s (normal forms Lt(x, 1), Lt(n-1, x), returning False) dominate the modular "
                        "inversion; the verification verdict is the ECDSA equation as a data-flow fact; signing never returns r = 0 or s = 0 and the deterministic variant "
@@ -216,5 +303,6 @@ def run(prog, chk, tier):
     decoder_rules(prog, chk, "C18")
     conversion_rules(prog, chk, "C18")
     canon_rules(prog, chk, "C18")
+    digest_rules(prog, chk, "C18")
     chk.assume("group orders are >= 2, so fixed-length signature fields are at least one byte long")
     chk.assume("numeric correctness of ECDSA (group law: C17 clauses; hash functions; RFC 6979 HMAC-DRBG) is outside this check")
